@@ -16,6 +16,10 @@ type RCell struct {
 	BitLen  int
 	Refs    []*RCell
 	Special bool
+	// DeclMask is the level mask written in the descriptor byte when the cell was parsed from a BOC
+	// (the reference model derives the mask from the structure and never trusts this value).
+	DeclMask uint8
+	Parsed   bool
 
 	maskDone bool
 	mask     uint8
@@ -168,6 +172,31 @@ func rdN(b []byte, n int) uint64 {
 
 // ParseBOC is an independent parser for the generic and legacy BOC containers.
 func ParseBOC(b []byte) ([]*RCell, error) {
+	info, err := ParseBOCInfo(b)
+	if err != nil {
+		return nil, err
+	}
+	return info.Roots, nil
+}
+
+// BocInfo is what the reference parser learnt about a bag of cells.
+type BocInfo struct {
+	Magic                    uint32
+	HasIdx, HasCRC, HasCache bool
+	Size, Off                int
+	Cells                    []*RCell // in serialisation order
+	Roots                    []*RCell
+	RootIdx                  []int
+	// IndexErr is non-empty when an index entry is not the end offset of its cell. Kept as a remark,
+	// not a parse error: bags written by some JavaScript libraries carry start offsets there and every
+	// parser that ignores the index reads them fine. Checks of tongo's own output require it to be empty.
+	IndexErr string
+}
+
+// ParseBOCInfo parses and validates a bag of cells: header, CRC32C, index entries (each must be the end
+// offset of its cell, in the cache-bit form when that flag is set), forward-only references, no
+// trailing bytes.
+func ParseBOCInfo(b []byte) (*BocInfo, error) {
 	if len(b) < 6 {
 		return nil, errors.New("short")
 	}
@@ -186,7 +215,6 @@ func ParseBOC(b []byte) ([]*RCell, error) {
 	default:
 		return nil, errors.New("magic")
 	}
-	_ = hasCache
 	if size < 1 || size > 4 {
 		return nil, errors.New("size")
 	}
@@ -204,11 +232,18 @@ func ParseBOC(b []byte) ([]*RCell, error) {
 	if err := need(3*size + off); err != nil {
 		return nil, err
 	}
-	cells := int(rdN(b[p:], size)); p += size
-	roots := int(rdN(b[p:], size)); p += size
-	absent := int(rdN(b[p:], size)); p += size
-	tot := int(rdN(b[p:], off)); p += off
-	if absent != 0 || roots < 1 || cells < 1 || roots > cells {
+	cells := int(rdN(b[p:], size))
+	p += size
+	roots := int(rdN(b[p:], size))
+	p += size
+	absent := int(rdN(b[p:], size))
+	p += size
+	tot := int(rdN(b[p:], off))
+	p += off
+	if tot < 0 || tot > len(b) || cells < 0 || cells > len(b) || roots < 0 || roots > len(b) {
+		return nil, errors.New("counts exceed the input")
+	}
+	if absent != 0 || roots < 1 || cells < 1 { // the reference C++ writer emits duplicate roots, so roots may exceed cells
 		return nil, errors.New("counts")
 	}
 	if err := need(roots * size); err != nil {
@@ -216,11 +251,16 @@ func ParseBOC(b []byte) ([]*RCell, error) {
 	}
 	rootIdx := make([]int, roots)
 	for i := range rootIdx {
-		rootIdx[i] = int(rdN(b[p:], size)); p += size
+		rootIdx[i] = int(rdN(b[p:], size))
+		p += size
 	}
+	var index []uint64
 	if hasIdx {
 		if err := need(cells * off); err != nil {
 			return nil, err
+		}
+		for i := 0; i < cells; i++ {
+			index = append(index, rdN(b[p+i*off:], off))
 		}
 		p += cells * off
 	}
@@ -242,6 +282,7 @@ func ParseBOC(b []byte) ([]*RCell, error) {
 		return nil, errors.New("trailing")
 	}
 	list := make([]*RCell, cells)
+	indexErr := ""
 	refIdx := make([][]int, cells)
 	q := 0
 	for i := 0; i < cells; i++ {
@@ -265,7 +306,7 @@ func ParseBOC(b []byte) ([]*RCell, error) {
 		if q+nbytes+nrefs*size > len(data) {
 			return nil, errors.New("cell data")
 		}
-		c := &RCell{Special: special}
+		c := &RCell{Special: special, DeclMask: lm, Parsed: true}
 		c.Data = append([]byte{}, data[q:q+nbytes]...)
 		c.BitLen = nbytes * 8
 		if d2&1 != 0 {
@@ -283,6 +324,15 @@ func ParseBOC(b []byte) ([]*RCell, error) {
 			q += size
 		}
 		list[i] = c
+		if hasIdx {
+			e := index[i]
+			if hasCache {
+				e >>= 1
+			}
+			if e != uint64(q) && indexErr == "" {
+				indexErr = fmt.Sprintf("index entry %d says %d, cell ends at %d", i, e, q)
+			}
+		}
 	}
 	if q != len(data) {
 		return nil, fmt.Errorf("cell data residue %d", len(data)-q)
@@ -302,7 +352,7 @@ func ParseBOC(b []byte) ([]*RCell, error) {
 		}
 		out[i] = list[r]
 	}
-	return out, nil
+	return &BocInfo{Magic: magic, HasIdx: hasIdx, HasCRC: hasCRC, HasCache: hasCache, Size: size, Off: off, Cells: list, Roots: out, RootIdx: rootIdx, IndexErr: indexErr}, nil
 }
 
 // ---------------------------------------------------------------------------------------------
